@@ -109,6 +109,23 @@ func disciplineOf(proto string, op wire.Op, o Obs, nframes int, hits int, expect
 		if proto == "text" && o.Term != 1 {
 			probs = append(probs, fmt.Sprintf("%d END lines", o.Term))
 		}
+		if proto == "bin" && o.Status == "ok" {
+			// every non-quiet key that is not a hit is answered by an explicit miss
+			hit := map[int]bool{}
+			for _, v := range o.Values {
+				hit[v.Idx] = true
+			}
+			missed := map[int]bool{}
+			for _, m := range o.Misses {
+				missed[m] = true
+			}
+			for ki := range op.Keys {
+				q := ki < len(op.Quiets) && op.Quiets[ki]
+				if !q && !hit[ki] && !missed[ki] {
+					probs = append(probs, fmt.Sprintf("the non-quiet get of key #%d got no answer at all", ki))
+				}
+			}
+		}
 	case "set", "add", "replace", "append", "prepend":
 		if op.Quiet && proto == "bin" {
 			if !expectFail && nframes != 0 {
@@ -172,12 +189,13 @@ func (e *seqEnv) pipeStep(i int, st Step) {
 	type exp struct {
 		hits int
 		fail bool
+		ex   Expect
 	}
 	exps := make([]exp, len(st.Pipe))
 	quit := false
 	for oi, op := range st.Pipe {
 		ex := applyModel(e.ref, op)
-		exps[oi] = exp{hits: len(ex.Hits), fail: ex.Outcome != 0}
+		exps[oi] = exp{hits: len(ex.Hits), fail: ex.Outcome != 0, ex: ex}
 		if op.Kind == "quit" {
 			quit = true
 		}
@@ -220,6 +238,11 @@ func (e *seqEnv) pipeStep(i int, st Step) {
 				e.violate(i, "discipline", class+"/"+op.Kind, "pipeline [%s] request #%d %s: %s; replies %q", kinds(), oi, op, strings.Join(ps, "; "), trunc(reply))
 				return
 			}
+			// what each reply says (status, values, flags, which keys missed) is the map's answer
+			if m := compareOutcome(proto, op, o, exps[oi].ex); m != "" {
+				e.violate(i, "content", class+"/"+op.Kind, "pipeline [%s] request #%d %s -> %s", kinds(), oi, op, m)
+				return
+			}
 		}
 		return
 	}
@@ -255,6 +278,13 @@ func (e *seqEnv) pipeStep(i int, st Step) {
 		finishObs(&o, false)
 		if ps := disciplineOf(proto, op, o, len(per[oi]), exps[oi].hits, exps[oi].fail); len(ps) > 0 {
 			e.violate(i, "discipline", class+"/"+op.Kind, "pipeline [%s] request #%d %s: %s", kinds(), oi, op, strings.Join(ps, "; "))
+			return
+		}
+		if op.Kind == "noop" || op.Kind == "version" {
+			continue
+		}
+		if m := compareOutcome(proto, op, o, exps[oi].ex); m != "" {
+			e.violate(i, "content", class+"/"+op.Kind, "pipeline [%s] request #%d %s -> %s", kinds(), oi, op, m)
 			return
 		}
 	}
